@@ -42,7 +42,8 @@ let () =
        let rcfg = { c_only_known = (get "ok" "0" = "1"); c_iso_handler = geto "iso"; c_prodinfo = def_prodinfo; c_confinfo = (if get "noconf" "0" = "1" then [] else def_confinfo); c_hb_on = hb;
                     c_inst1 = []; c_inst2 = []; c_manuf = (if get "noconf" "0" = "1" then [] else str_bytes "NMEA2000 library, https://github.com/ttlappalainen/NMEA2000"); c_inst_changed = false } in
        (* conf=<hex inst1>,<hex inst2>,<hex manufacturer>: the application called SetConfigurationInformation (- = empty string) *)
-       let rcfg = match (try Some (List.assoc "conf" kv) with Not_found -> None) with
+       (* pconf= (SetProgmemConfigurationInformation with strings of at most 70 characters) leaves the node with the same strings and payload *)
+       let rcfg = match (try Some (List.assoc "conf" kv) with Not_found -> (try Some (List.assoc "pconf" kv) with Not_found -> None)) with
          | Some c -> (match String.split_on_char ',' c with
              | [a; b; m] -> set_configuration_information rcfg (unhex m) (unhex a) (unhex b)
              | _ -> rcfg)
